@@ -195,6 +195,48 @@ pub fn run(seed: u64, count: usize) -> Vec<String> {
         drop(wm);
         drop(cache);
     }
+    // the trait forms: `cache::Access::load` of a plain `Cache` and of a `MapCache`
+    let tv = trait_forms();
+    out.push(format!("exec {} a0=0", count));
+    for v in tv {
+        out.push(format!("violation {}", v));
+    }
+    out.push("endexec".into());
     varc::SCHED_POINTS.store(true, SeqCst);
     out
+}
+
+/// `Cache` and `MapCache` used through the `cache::Access` trait (the way generic code holds a
+/// cache): the same freshness and release as the inherent `Cache::load`
+fn trait_forms() -> Vec<String> {
+    use arc_swap::cache::Access as CacheAccess;
+    use arc_swap::ArcSwap;
+    fn through<C: CacheAccess<u64>>(c: &mut C) -> u64 {
+        *c.load()
+    }
+    let mut v = vec![];
+    let a = Arc::new(ArcSwap::from_pointee(1u64));
+    let mut plain = Cache::new(Arc::clone(&a));
+    let mut mapped = Cache::new(Arc::clone(&a)).map(|x: &Arc<u64>| -> &u64 { &**x });
+    for k in 2..7u64 {
+        let old = a.load_full();
+        // both caches have seen `old`
+        let (p0, m0) = (through(&mut plain), through(&mut mapped));
+        if p0 != *old || m0 != *old {
+            v.push(format!("cache: through the Access trait a load returned {} / {} while the container held {}", p0, m0, *old));
+        }
+        a.store(Arc::new(k));
+        let (p1, m1) = (through(&mut plain), through(&mut mapped));
+        if p1 != k {
+            v.push(format!("cache: through the Access trait, Cache::load returned #{} which is older than a store (#{}) completed before the call", p1, k));
+        }
+        if m1 != k {
+            v.push(format!("cache: through the Access trait, MapCache::load returned #{} which is older than a store (#{}) completed before the call", m1, k));
+        }
+        let held = Arc::strong_count(&old) - 1;
+        if held != 0 {
+            v.push(format!("cache: {} cache(s) still hold the value replaced by a store after loading through the Access trait (more than one old value retained)", held));
+        }
+    }
+    v
 }
